@@ -304,7 +304,9 @@ def Bandit.predictChunk (le : Expect → Expect → Bool) (b : Bandit α) (isPre
     let r := qs.zipIdx.foldl (fun (acc : List (LP α) × List (ExpDict α ⊕ (Option α × ExpDict α)) × Rng) (p : Vec × Nat) =>
       let i := start + p.2
       let c := o.cells.getD i 0
-      let lp : LP α := acc.1.getD c default
+      let lp0 : LP α := acc.1.getD c default
+      -- the row generator is installed on the policy and on its per-arm models
+      let lp : LP α := { lp0 with st := lp0.st.mapKV fun _ r => { r with rngPriv := false } }
       if isPredict then
         let (lp2, out, g) := lp.predict le (some 1) [p.1] (.row i) acc.2.2
         (acc.1.set c lp2, acc.2.1 ++ [.inr (out.toList.headD (none, []))], g)
